@@ -283,6 +283,22 @@ func init() {
 				}
 			}
 		}
+		// patterns of many pieces (7..12 special characters): the language is still the mask language
+		for _, seps := range []string{"*", "^", "*^"} {
+			for _, n := range []int{7, 8, 9, 12} {
+				var sb strings.Builder
+				for k := 0; k < n; k++ {
+					sb.WriteString(string(rune('a' + k)))
+					sb.WriteByte(seps[k%len(seps)])
+				}
+				sb.WriteString("hi" + string(seps[0]) + "j")
+				for _, pre := range []string{"", "||", "|"} {
+					for _, mc := range []bool{false, true} {
+						c03CheckPattern(c, pre+sb.String(), mc, cnt, alphabet)
+					}
+				}
+			}
+		}
 		// corpus layer: the basic patterns of the bundled real-world lists
 		stride := 25
 		if c.Thorough() {
